@@ -10,7 +10,6 @@ import datetime
 import heapq
 import itertools
 import re
-import sys
 from functools import wraps
 # For warning about deprecation of until and count
 from warnings import warn
@@ -149,13 +148,16 @@ class rrulebase(object):
         if self._cache_complete:
             return self._cache[item]
         elif isinstance(item, slice):
-            if item.step and item.step < 0:
+            if ((item.step is not None and item.step <= 0) or
+                    (item.start is not None and item.start < 0) or
+                    (item.stop is not None and item.stop < 0)):
+                # islice() takes no negative bounds, a zero step is an error
                 return list(iter(self))[item]
             else:
                 return list(itertools.islice(self,
-                                             item.start or 0,
-                                             item.stop or sys.maxsize,
-                                             item.step or 1))
+                                             item.start,
+                                             item.stop,
+                                             item.step))
         elif item >= 0:
             gen = iter(self)
             try:
